@@ -79,7 +79,21 @@ func (g *Gen) keyBytesRandom(n int) []byte {
 	return b
 }
 
-func (g *Gen) keyBytes(n int) []byte {
+// keys issued so far, by length: now and then the next key is an earlier one with a single octet changed
+// (related keys: whatever is indexed, cached or compared by a part of the key sees a collision)
+var issuedKeys = map[int][]byte{}
+
+func (g *Gen) keyBytes(n int) (out []byte) {
+	defer func() { issuedKeys[n] = append([]byte{}, out...) }()
+	if prev, ok := issuedKeys[n]; ok && n > 0 && g.r.Intn(6) == 0 {
+		b := append([]byte{}, prev...)
+		p := g.r.Intn(n)
+		if g.chance(0.4) {
+			p = n - 1 - g.r.Intn((n+1)/2) // in the second half
+		}
+		b[p] ^= byte(1 + g.r.Intn(255))
+		return b
+	}
 	switch g.r.Intn(12) {
 	case 0:
 		return make([]byte, n)
@@ -227,6 +241,63 @@ func refBuildSK(k *saKeys, sender message.Role, hdrFields []byte, firstInner uin
 	return msg
 }
 
+// refSealRaw: header + SK payload whose body is `enc` taken as it is (IV and ciphertext, however malformed)
+// followed by a correct checksum: a message that authenticates but need not decrypt
+func refSealRaw(k *saKeys, sender message.Role, hdrFields []byte, firstInner uint8, enc []byte) []byte {
+	_, ka := k.dirKeys(sender)
+	icvLen := refIntegOutLen[k.st.i]
+	total := 28 + 4 + len(enc) + icvLen
+	msg := append([]byte{}, hdrFields[:28]...)
+	msg[16] = 46
+	binary.BigEndian.PutUint32(msg[24:28], uint32(total))
+	sk := []byte{firstInner, 0, 0, 0}
+	binary.BigEndian.PutUint16(sk[2:4], uint16(total-28))
+	msg = append(msg, sk...)
+	msg = append(msg, enc...)
+	m := hmac.New(refHash(k.st.i), ka)
+	m.Write(msg)
+	return append(msg, m.Sum(nil)[:icvLen]...)
+}
+
+// a message of `sender` with a CORRECT checksum whose encrypted part is malformed in one of the ways a
+// receiver has to survive: no / short IV, empty or misaligned ciphertext, pad length past the plaintext,
+// undecodable inner chain
+func (g *Gen) authMalformed(k *saKeys, sender message.Role) ([]byte, string) {
+	hdr := make([]byte, 28)
+	g.r.Read(hdr[:16])
+	hdr[17], hdr[18], hdr[19] = 0x20, byte(g.pick(34, 35, 36, 37)), byte(g.pick(0, 8, 32, 40))
+	binary.BigEndian.PutUint32(hdr[20:24], uint32(g.r.Intn(5)))
+	ke, _ := k.dirKeys(sender)
+	iv := g.keyBytesRandom(16)
+	first := uint8(g.pick(0, 33, 39, 41, 48))
+	switch g.r.Intn(7) {
+	case 0:
+		return refSealRaw(k, sender, hdr, first, iv), "iv-only"
+	case 1:
+		n := 1 + g.r.Intn(70)
+		if n%16 == 0 {
+			n++
+		}
+		return refSealRaw(k, sender, hdr, first, append(iv, g.keyBytesRandom(n)...)), "misaligned"
+	case 2:
+		return refSealRaw(k, sender, hdr, first, g.keyBytesRandom(g.r.Intn(16))), "short-iv"
+	case 3:
+		return refSealRaw(k, sender, hdr, first, nil), "empty"
+	case 4:
+		pt := g.keyBytesRandom(16 * (1 + g.r.Intn(3)))
+		pt[len(pt)-1] = byte(len(pt) + g.r.Intn(256-len(pt)))
+		return refSealRaw(k, sender, hdr, first, append(iv, refCBCEncrypt(ke, iv, pt)...)), "padlen-too-large"
+	case 5:
+		pt := g.keyBytesRandom(16 * (1 + g.r.Intn(3)))
+		pt[len(pt)-1] = byte(len(pt) - 1) // everything is padding
+		return refSealRaw(k, sender, hdr, first, append(iv, refCBCEncrypt(ke, iv, pt)...)), "all-padding"
+	default:
+		pt := g.bytes(16 * (1 + g.r.Intn(4)))
+		pt[len(pt)-1] = byte(g.r.Intn(len(pt)))
+		return refSealRaw(k, sender, hdr, first, append(iv, refCBCEncrypt(ke, iv, pt)...)), "garbage-inner"
+	}
+}
+
 // refOpenSK verifies, decrypts and splits a protected message.
 func refOpenSK(k *saKeys, sender message.Role, msg []byte) (*refSK, error) {
 	ke, ka := k.dirKeys(sender)
@@ -286,4 +357,16 @@ func refCBCDecrypt(key, iv, ct []byte) []byte {
 	out := make([]byte, len(ct))
 	cipher.NewCBCDecrypter(blk, iv).CryptBlocks(out, ct)
 	return out
+}
+
+// a key set of the same suite in which every key is drawn at random and differs from the corresponding key of k
+// (the special all-zero / all-0xff keys of saKeys could coincide with k's: then the set would not be "unrelated")
+func (g *Gen) saKeysUnrelated(k *saKeys) *saKeys {
+	for {
+		u := &saKeys{st: k.st, d: g.keyBytesRandom(len(k.d)), ai: g.keyBytesRandom(len(k.ai)), ar: g.keyBytesRandom(len(k.ar)),
+			ei: g.keyBytesRandom(len(k.ei)), er: g.keyBytesRandom(len(k.er)), pi: g.keyBytesRandom(len(k.pi)), pr: g.keyBytesRandom(len(k.pr))}
+		if string(u.ai) != string(k.ai) && string(u.ar) != string(k.ar) && string(u.ai) != string(k.ar) && string(u.ar) != string(k.ai) {
+			return u
+		}
+	}
 }
